@@ -372,14 +372,7 @@ impl<'p> Ev<'p> {
             deep_extend(&mut ann, &parse_ann(a)?);
         }
         let has_use_ann = !use_ann.is_empty();
-        if has_use_ann && anns.iter().any(|_| true) {
-            // Same key at a declaration and at its use is unspecified; different keys merge.
-            for k in use_ann.keys() {
-                if ann.contains_key(k) {
-                    return unspec("same annotation key at a declaration and at its use");
-                }
-            }
-        }
+        // Declaration annotations, overridden / extended by the use-site annotation.
         deep_extend(&mut ann, &use_ann);
         let env = Env {
             module,
@@ -782,11 +775,6 @@ impl<'p> Ev<'p> {
                         let mut body_ann = Mapping::new();
                         for a in anns {
                             deep_extend(&mut body_ann, &parse_ann(a)?);
-                        }
-                        for k in ann.keys() {
-                            if body_ann.contains_key(k) {
-                                return unspec("same annotation key at a declaration and at its use");
-                            }
                         }
                         deep_extend(&mut body_ann, &ann);
                         // Lexical scoping: the body sees its own module and parameters only.
